@@ -179,13 +179,72 @@ Section Exec.
     end.
 End Exec.
 
+(* ---------- the stock debugger layer: fast/debug/api.go Debugger.main ----------
+     if !d.Show(breakpoint) { return DebugOp{Depth: env.Run.DebugDepth} }   // skip synthetic statements
+     return d.Repl()
+   Debugger.Show returns false exactly for a statement without source position (env.DebugPos[env.IP] == token.NoPos,
+   spos = 0: e.g. the epilogue of `return expr`, executed BEFORE the deferred calls of the function run one level
+   deeper).  Such a callback does not prompt, consumes no command and asks for the depth that is already in force;
+   every other callback prompts (a user-visible stop) and is answered by the next command.
+   k-definitions = the definitions above with `callback` replaced by `kcallback`; the stops they return are the PROMPTS. *)
+Definition synthetic (s : stmt) : bool := spos s =? 0.
+
+Definition kcallback (D : Z) (s : stmt) (cmds : list cmd) : Z * list cmd * bool :=
+  if synthetic s then (apply_op D, cmds, false)
+  else let '(d, r) := callback s cmds in (d, r, true).
+
+Definition kss_callbacks (D : Z) (i : Z) (s : stmt) (cmds : list cmd) : Z * list stop * list cmd :=
+  let '(d1, stops1, cmds1) :=
+    if sdepth s <? D then let '(d, r, p) := kcallback D s cmds in (d, if p then [(i, false)] else [], r)
+    else (D, [], cmds) in
+  if sbp s then let '(d, r, p) := kcallback d1 s cmds1 in (d, stops1 ++ (if p then [(i, true)] else []), r)
+  else (d1, stops1, cmds1).
+
+Definition kdstep (st : dstate) (i : Z) (s : stmt) (cmds : list cmd) : dstate * list stop * list cmd :=
+  let '(outer, cur0) := enter st s in
+  match refresh (dd st) cur0 with
+  | SS =>
+      let '(d2, sts, cmds2) := kss_callbacks (dd st) i s cmds in
+      (mkD d2 (outer ++ [SS]), sts, cmds2)
+  | Fast n =>
+      if sbp s then
+        let '(d, r, p) := kcallback (dd st) s cmds in
+        (mkD d (outer ++ [if 0 <? d then SS else Fast (S n)]), if p then [(i, true)] else [], r)
+      else (mkD (dd st) (outer ++ [Fast (S n)]), [], cmds)
+  end.
+
+Fixpoint krun (st : dstate) (i : Z) (tr : list stmt) (cmds : list cmd) : list stop :=
+  match tr with
+  | [] => []
+  | s :: tr' =>
+      let '(st', sts, cmds') := kdstep st i s cmds in
+      sts ++ krun st' (i + 1) tr' cmds'
+  end.
+
+Definition kstops (tr : list stmt) (cmds : list cmd) : list stop := krun init_debug 0 tr cmds.
+Definition kstops_eval (tr : list stmt) (cmds : list cmd) : list stop := krun init_run 0 tr cmds.
+
+(* SPEC for the user of the stock debugger: statements without source position do not exist (they are neither a stop
+   nor do they change what was requested); on the others the documented rule *)
+Fixpoint kdoc_run (D : Z) (i : Z) (tr : list stmt) (cmds : list cmd) : list stop :=
+  match tr with
+  | [] => []
+  | s :: tr' =>
+      if synthetic s then kdoc_run D (i + 1) tr' cmds
+      else let '(d2, sts, cmds2) := ss_callbacks D i s cmds in
+           sts ++ kdoc_run d2 (i + 1) tr' cmds2
+  end.
+
 (* ---------- correspondence support ---------- *)
 Inductive start := StartDebug | StartEval.   (* Interp.Debug vs Interp.Eval *)
+(* Raw: a fast.Debugger that answers every callback with the next command (fast/debug.go alone);
+   Stock: the callbacks go through fast/debug.Debugger.At/Breakpoint (api.go), observed stops = its prompts *)
+Inductive layer := Raw | Stock.
 
 Record case := mkCase {
   c_idx : Z;
   c_trace : list stmt;                               (* full single-step trace observed on the implementation *)
-  c_scripts : list (start * list cmd * list stop)    (* per script: how it was started, the commands, the callbacks observed *)
+  c_scripts : list (start * layer * list cmd * list stop)    (* per script: how it was started, through which layer, the commands, the stops observed *)
 }.
 
 Definition stop_eqb (a b : stop) : bool := (fst a =? fst b) && Bool.eqb (snd a) (snd b).
@@ -196,9 +255,10 @@ Fixpoint stops_eqb (a b : list stop) : bool :=
   | _, _ => false
   end.
 
-Definition script_ok (tr : list stmt) (x : start * list cmd * list stop) : bool :=
-  let '(s, cmds, obs) := x in
-  stops_eqb (run (match s with StartDebug => init_debug | StartEval => init_run end) 0 tr cmds) obs.
+Definition script_ok (tr : list stmt) (x : start * layer * list cmd * list stop) : bool :=
+  let '(s, l, cmds, obs) := x in
+  let st0 := match s with StartDebug => init_debug | StartEval => init_run end in
+  stops_eqb (match l with Raw => run st0 0 tr cmds | Stock => krun st0 0 tr cmds end) obs.
 
 Definition case_ok (c : case) : bool := forallb (script_ok (c_trace c)) (c_scripts c).
 
